@@ -18,6 +18,24 @@ Workloads: directed single-thread drive through every public entry point with a 
 thread (a) calling clf.max_recv_data_size while the directed thread is inside each driver call and (b) calling
 clf.close() between the evaluation of `self.device` and the call, both with a state handshake (no wall clock);
 stress rounds with 4-12 threads, random entry points, sys.monitoring LINE yield injection, close/open races.
+
+Strengthened (wave 6):
+  * pre-acquire probe: at the directed thread's k-th acquisition of the frontend lock (every k of every scenario)
+    the prober runs close() (second pass: close()+open()) to completion BEFORE the acquisition proceeds; a device
+    reference or `is None` test taken before the lock is then deterministic.  Besides the three clauses above the
+    documented outcome of sense/listen/exchange/size query on a closed frontend (IOError ENODEV) is demanded when
+    the close completed before the operation's first lock acquisition -> closed-before-lock/<operation>/<returned|
+    driver-error|internal-error>.
+  * duration / hand-off: the caller must still own the lock when the driver method returns
+    (lock-lost-during-driver-call/<method>@<function>); a release by a thread that is not the owner while the owner
+    is inside the driver is a violation by itself (lock-released-by-non-owner/<function>); releasing a lock that is
+    not locked is judged as lock-protocol/release-unlocked-lock@<function>.  Prober operations inside every driver
+    call: size query, listen(1 ms), open, exchange, sense (timed waiters are waited for: no scheduling luck).
+  * driver fault enumeration: (static site, n-th call, kind in IOError(EIO)/TimeoutError/TransmissionError/
+    BrokenLinkError) incl. close() raising and device.connect failing, prober blocked on the lock at the moment of
+    the fault, then the same frontend is used further with the prober active; random faults in stress.
+  * static scan over all of nfc/**/*.py (X.device.<method>, aliases of X.device, getattr(X.device, ..),
+    X.device.<attr>.<call>()); coverage criterion = site observed WITH the lock held.
 """
 import ast
 import errno
@@ -33,21 +51,35 @@ import zlib
 ID = "C15"
 LEVEL = "exploration"
 RULE = ("cases = (a) directed scenarios (entry point x field situation x callback results) each run once with a "
-        "size-query prober inside every driver call and once per driver-attribute fetch k with a close() prober "
-        "between fetch and call; (b) stress rounds (threads, calls, yield probability, switch interval drawn from "
-        "the PRNG). A directed case is distinct by (scenario, parameters, probe position); a stress round by its "
-        "schedule signature (crc of (thread, function, line) at thread switches inside nfc/clf/__init__.py); "
-        "non-trivial if at least one driver call was judged in it")
+        "size-query prober inside every driver call, once per other prober operation (listen/open/exchange/sense), once "
+        "per driver-attribute fetch k with a close() prober between fetch and call, once per lock acquisition k with "
+        "close() and once with close()+open() completed right before the acquisition, and once per (static driver "
+        "call site, n-th call, fault kind) with the same frontend used further afterwards; (b) stress rounds (threads, "
+        "calls, yield probability, switch interval, driver faults drawn from the PRNG). A directed case is distinct by "
+        "(scenario, parameters, probe, position, fault); a stress round by its schedule signature (crc of (thread, "
+        "function, line) at thread switches inside nfc/clf/__init__.py); non-trivial if at least one driver call was "
+        "judged in it")
 ASSUMPTIONS = [
     "the fake driver's yields (time.sleep(0)/short sleeps inside every method) stand for blocking hardware I/O",
     "the frontend keeps its lock in the attribute `lock` and its driver in `device` (otherwise: inconclusive)",
     "sleeps of nfc.clf / nfc.llcp.llc are compressed to <= 0.2 ms (timing only, no effect on lock discipline)",
-    "driver calls made through an alias of self.device are judged dynamically but are not part of the static "
-    "site list (counted as dynamic_unlisted_site)",
+    "the device object handed to other code as a plain argument (f(self.device)) is not followed statically; its "
+    "calls are still judged dynamically (counted as dynamic site)",
     "str()/format() of the device and plain attribute reads (self.device is None) are not driver calls",
+    "the clause closed-before-lock/* rests on the documented behaviour of the frontend (IOError ENODEV without a "
+    "device), applied only when another thread's close() completed before the operation's first lock acquisition",
+    "a driver close() that raises something else than IOError (propagated by the frontend) does not count as a "
+    "completed close",
 ]
 REQUIRED = ["driver_calls", "driver_calls_with_lock_held", "probe_gates", "close_probe_runs", "stress_rounds",
-            "stress_calls", "thread_switches", "max_sites_covered"]
+            "stress_calls", "thread_switches", "max_sites_covered",
+            "probe_prober_blocked_on_lock", "close_probe_fired", "lock_contended_acquisitions",
+            "pre_acquire_close_fired", "pre_acquire_reopen_fired", "pre_acquire_enodev_outcomes_judged",
+            "exit_owner_checks", "lock_releases_checked", "max_lock_sites_reached",
+            "prober_op/listen", "prober_op/open", "prober_op/exchange", "prober_op/sense", "prober_op/size",
+            "fault_runs_fired", "fault_kind/IOError", "fault_kind/TimeoutError", "fault_kind/TransmissionError",
+            "fault_kind/BrokenLinkError", "fault_at/close", "fault_at/device.connect", "fault_aftermath_driver_calls",
+            "stress_faults_injected"]
 
 TOOL_ID = 3
 _get_ident = threading.get_ident
@@ -64,34 +96,75 @@ def plan(tier, seed):
 # =============================================================================================================
 # owner-tracking lock
 # =============================================================================================================
+class HarnessStop(BaseException):
+    """raised by the harness inside a workload thread to stop it (never a verdict by itself)"""
+
+
+def _nfc_frame(depth):
+    """innermost frame at or above sys._getframe(depth) that executes code of the nfc package under test"""
+    try:
+        f = sys._getframe(depth + 1)
+    except ValueError:
+        return None
+    n = 0
+    while f is not None and n < 8:
+        fn = f.f_code.co_filename
+        if "/nfc/" in fn.replace("\\", "/") and not fn.startswith("/verif/"):
+            return f
+        f = f.f_back
+        n += 1
+    return None
+
+
+def _frame_func(f):
+    if f is None:
+        return "?"
+    fn = f.f_code.co_filename.replace("\\", "/")
+    if fn.endswith("/nfc/clf/__init__.py"):
+        return _frontend_func(f.f_code)
+    return "%s:%s" % (fn[fn.rfind("/nfc/") + 1:], f.f_code.co_name)
+
+
 class OwnerLock(object):
     """Stand-in for the frontend lock that knows who holds it.  All blocking behaviour is that of the wrapped
     real lock (a plain Lock still dead-locks on re-acquisition, an RLock is re-entrant)."""
 
-    def __init__(self, real):
+    def __init__(self, real, mon=None, clf=None):
         self.real = real
         self.kind = type(real).__name__
+        self.mon = mon
+        self.clf = clf
         self.owner = None
         self.depth = 0
         self.waiters = 0
+        self.waiters_untimed = 0
         self.acquisitions = 0
         self.contended = 0
+        self.first_anomaly = None       # function of the first stray release: later anomalies of this lock follow from it
         self._mu = threading.Lock()
 
     def acquire(self, blocking=True, timeout=-1):
         me = _get_ident()
+        mon = self.mon
+        if mon is not None:
+            mon.before_acquire(self, me, blocking, timeout)
         got = self.real.acquire(False)
         if not got:
             if not blocking:
                 return False
+            untimed = isinstance(timeout, (int, float)) and timeout < 0
             with self._mu:
                 self.waiters += 1
                 self.contended += 1
+                if untimed:
+                    self.waiters_untimed += 1
             try:
                 got = self.real.acquire(True, timeout)
             finally:
                 with self._mu:
                     self.waiters -= 1
+                    if untimed:
+                        self.waiters_untimed -= 1
             if not got:
                 return False
         if self.owner == me:
@@ -104,7 +177,11 @@ class OwnerLock(object):
 
     def release(self):
         me = _get_ident()
-        if self.owner == me:
+        mon = self.mon
+        owner = self.owner
+        if mon is not None:
+            mon.before_release(self, me, owner)
+        if owner == me:
             self.depth -= 1
             if self.depth <= 0:
                 self.owner = None
@@ -112,7 +189,12 @@ class OwnerLock(object):
         elif self.kind != "RLock":
             self.owner = None
             self.depth = 0
-        self.real.release()
+        try:
+            self.real.release()
+        except RuntimeError as e:
+            if mon is not None:
+                mon.release_error(self, me, e)
+            raise
 
     def locked(self):
         f = getattr(self.real, "locked", None)
@@ -129,46 +211,167 @@ class OwnerLock(object):
 # =============================================================================================================
 # static call sites
 # =============================================================================================================
+_PREFILTER = None
+
+
+def _device_expr(node, aliases=()):
+    """X.device for an object X (not the module nfc.clf.device) or a local alias of it"""
+    if isinstance(node, ast.Name):
+        return node.id in aliases
+    if not (isinstance(node, ast.Attribute) and node.attr == "device"):
+        return False
+    root = node.value
+    while isinstance(root, ast.Attribute):
+        root = root.value
+    if isinstance(root, ast.Name) and root.id == "nfc":
+        return False
+    return True
+
+
 class Sites(object):
+    """every syntactic call into a device driver object in the nfc package: X.device.<method>(..) and bound-method
+    references, calls through local aliases of X.device, getattr(X.device, ..), X.device.<attr>.<call>(..), the
+    device.connect(..) call of the frontend module; plus the lock acquisition sites of the frontend module"""
+
     def __init__(self, path, device_methods):
+        import re
         self.path = path
         self.items = []
-        with open(path, "rb") as f:
-            tree = ast.parse(f.read())
-        self._walk(tree, [], None, set(device_methods))
-        self.by_method = {}
+        self.lock_sites = []
+        self.files = {}
+        self.unparsed = []
+        methods = set(device_methods)
+        root = os.path.dirname(os.path.dirname(os.path.abspath(path)))
+        pre = re.compile(r"(?<!nfc\.clf)\.device\b")
+        todo = []
+        for d, dirs, files in os.walk(root):
+            dirs.sort()
+            for fn in sorted(files):
+                if fn.endswith(".py"):
+                    todo.append(os.path.join(d, fn))
+        self.scanned = 0
+        for fp in todo:
+            try:
+                with open(fp, "rb") as f:
+                    raw = f.read()
+            except OSError:
+                self.unparsed.append(fp)
+                continue
+            self.scanned += 1
+            if fp != path and not pre.search(raw.decode("utf-8", "replace")):
+                continue
+            try:
+                tree = ast.parse(raw)
+            except SyntaxError:
+                self.unparsed.append(fp)
+                continue
+            rel = "" if fp == path else fp[len(root) - 3:].replace(os.sep, "/") + ":"
+            self._cur = (fp, rel)
+            self._walk(tree, [], None, methods, self._aliases(tree))
+        self.by_file = {}
         for s in self.items:
-            self.by_method.setdefault(s["method"], []).append(s)
+            self.by_file.setdefault(s["file"], {}).setdefault(s["method"], []).append(s)
 
-    def _walk(self, node, stack, parent, methods):
+    @staticmethod
+    def _aliases(scope):
+        """names bound to X.device anywhere in this scope (flow-insensitive)"""
+        out = set()
+        for n in ast.walk(scope):
+            if isinstance(n, ast.Assign) and _device_expr(n.value) and isinstance(n.value, ast.Attribute):
+                for t in n.targets:
+                    if isinstance(t, ast.Name):
+                        out.add(t.id)
+            elif isinstance(n, (ast.AnnAssign, ast.NamedExpr)) and n.value is not None \
+                    and isinstance(n.value, ast.Attribute) and _device_expr(n.value) and isinstance(n.target, ast.Name):
+                out.add(n.target.id)
+        return out
+
+    def _walk(self, node, stack, parent, methods, aliases):
         if isinstance(node, (ast.FunctionDef, ast.AsyncFunctionDef)):
+            if not stack or (len(stack) == 1 and stack[0][:1].isupper()):
+                aliases = self._aliases(node)        # per outermost function (closures see its aliases)
+            stack = stack + [node.name]
+        elif isinstance(node, ast.ClassDef):
             stack = stack + [node.name]
         if isinstance(node, ast.Attribute) and isinstance(node.ctx, ast.Load):
             v = node.value
             is_call = isinstance(parent, ast.Call) and parent.func is node
-            if (isinstance(v, ast.Attribute) and v.attr == "device" and isinstance(v.value, ast.Name)
-                    and v.value.id == "self" and (is_call or node.attr in methods)):
-                self._add(node.attr, stack, node, "call" if is_call else "ref")
-            elif isinstance(v, ast.Name) and v.id == "device" and node.attr == "connect" and is_call:
+            if isinstance(v, ast.Attribute) and _device_expr(v):
+                selfdev = isinstance(v.value, ast.Name) and v.value.id == "self"
+                if node.attr in methods or (is_call and selfdev):
+                    self._add(node.attr, stack, node, "call" if is_call else "ref")
+            elif isinstance(v, ast.Name) and v.id in aliases and (node.attr in methods or is_call):
+                self._add(node.attr, stack, node, "alias-call" if is_call else "alias-ref")
+            elif isinstance(v, ast.Name) and v.id == "device" and node.attr == "connect" and is_call \
+                    and self._cur[0] == self.path:
                 self._add("device.connect", stack, node, "call")
+            elif is_call and isinstance(v, ast.Attribute):
+                # X.device.<attr>[.<attr>].<call>(): a call into the driver's innards that no proxy method sees
+                inner, chain = v, [node.attr]
+                while isinstance(inner, ast.Attribute) and not _device_expr(inner, aliases):
+                    chain.append(inner.attr)
+                    inner = inner.value
+                if isinstance(inner, (ast.Attribute, ast.Name)) and _device_expr(inner, aliases) and len(chain) > 1:
+                    self._add(".".join(reversed(chain)), stack, node, "chain")
+            if isinstance(v, ast.Attribute) and v.attr == "lock" and isinstance(v.value, ast.Name) \
+                    and v.value.id == "self" and node.attr == "acquire" and is_call and self._cur[0] == self.path:
+                self._add_lock(stack, node)
+        elif isinstance(node, ast.Call) and isinstance(node.func, ast.Name) and node.func.id == "getattr" \
+                and node.args and _device_expr(node.args[0], aliases):
+            self._add("*getattr", stack, node, "getattr")
+        elif isinstance(node, (ast.With, ast.AsyncWith)) and self._cur[0] == self.path:
+            for it in node.items:
+                e = it.context_expr
+                if isinstance(e, ast.Attribute) and e.attr == "lock" and isinstance(e.value, ast.Name) \
+                        and e.value.id == "self":
+                    self._add_lock(stack, e)
         for child in ast.iter_child_nodes(node):
-            self._walk(child, stack, node, methods)
+            self._walk(child, stack, node, methods, aliases)
+
+    def _names(self, stack):
+        st = list(stack)
+        if self._cur[0] == self.path and len(st) > 1 and st[0][:1].isupper():
+            st = st[1:]                                  # frontend module: ids without the class name (as before)
+        return st
 
     def _add(self, method, stack, node, kind):
-        func = stack[0] if stack else "<module>"
-        self.items.append({"id": "%s@%s:L%d" % (method, ".".join(stack) or "<module>", node.lineno),
-                           "method": method, "func": func, "lo": node.lineno,
+        st = self._names(stack)
+        fp, rel = self._cur
+        if rel:
+            func = rel + (st[-1] if st else "<module>")     # as Sites.resolve names frames of other modules
+        else:
+            func = st[0] if st else "<module>"
+        self.items.append({"id": "%s@%s%s:L%d" % (method, rel, ".".join(st) or "<module>", node.lineno),
+                           "method": method, "func": func, "lo": node.lineno, "file": fp,
                            "hi": getattr(node, "end_lineno", node.lineno) or node.lineno,
                            "kind": kind, "static": True})
+
+    def _add_lock(self, stack, node):
+        st = self._names(stack)
+        self.lock_sites.append({"id": "lock@%s:L%d" % (".".join(st) or "<module>", node.lineno),
+                                "func": st[0] if st else "<module>", "lo": node.lineno,
+                                "hi": getattr(node, "end_lineno", node.lineno) or node.lineno})
+
+    def lock_site(self, frame):
+        if frame is None or frame.f_code.co_filename != self.path:
+            return None
+        line = frame.f_lineno
+        for s in self.lock_sites:
+            if s["lo"] <= line <= s["hi"]:
+                return s["id"]
+        return None
 
     def resolve(self, method, frame):
         code = frame.f_code
         fn = code.co_filename
-        if fn == self.path:
+        tab = self.by_file.get(fn)
+        if tab is not None or fn == self.path:
             line = frame.f_lineno
-            for s in self.by_method.get(method, ()):
-                if s["lo"] <= line <= s["hi"]:
-                    return s
+            for key in (method, "*getattr"):
+                for s in (tab or {}).get(key, ()):
+                    if s["lo"] <= line <= s["hi"]:
+                        return s
+        if fn == self.path:
             func = _frontend_func(code)
             return {"id": "%s@%s:unlisted" % (method, func), "method": method, "func": func, "static": False,
                     "unlisted": True}
@@ -189,6 +392,9 @@ def _frontend_func(code):
 # =============================================================================================================
 # monitor
 # =============================================================================================================
+ENODEV_OPS = ("sense", "listen", "exchange", "max_send_data_size", "max_recv_data_size")
+
+
 class Monitor(object):
     MAX_KEPT = 40
 
@@ -196,6 +402,7 @@ class Monitor(object):
         self.sites = sites
         self.mu = threading.Lock()
         self.clf = None
+        self.harness = None
         self.active = {}
         self.in_driver = 0
         self.max_conc = 0
@@ -212,17 +419,41 @@ class Monitor(object):
         self.trace = []                 # first driver calls (evidence sample)
         self.prober_ident = None
         self.prober_in_driver = False
+        self.exit_checks = 0
+        self.releases_checked = 0
+        self.foreign_releases = 0
+        self.foreign_releases_owner_in_driver = 0
+        self.release_errors = 0
+        self.lock_leaks = []
+        self.ops = {}                   # thread ident -> stack of public frontend operations in progress
+        self.enodev_judged = 0
+        self.locks = []
         self._tok = itertools.count(1)
 
-    def frontend_lock(self):
-        lk = getattr(self.clf, "lock", None)
+    def lock_of(self, clf):
+        lk = getattr(clf if clf is not None else self.clf, "lock", None)
         return lk if isinstance(lk, OwnerLock) else None
 
-    def enter(self, proxy, method, site):
+    def frontend_lock(self):
+        return self.lock_of(self.clf)
+
+    def clf_in_driver(self, ident):
+        for r in self.active.values():
+            if r["ident"] == ident:
+                return r["clf"]
+        return None
+
+    # -- driver calls -------------------------------------------------------------------------
+    def enter(self, proxy, method, site, clf=None):
         me = _get_ident()
-        lk = self.frontend_lock()
+        if clf is None:
+            clf = self.clf
+        lk = self.lock_of(clf)
         owned = lk is not None and lk.owner == me
         tname = threading.current_thread().name
+        st = self.ops.get(me)
+        if st:
+            st[-1]["drv"] += 1
         with self.mu:
             self.calls += 1
             tok = next(self._tok)
@@ -236,9 +467,11 @@ class Monitor(object):
             elif owned:
                 self.calls_locked += 1
                 self.sites_locked.add(site["id"])
-            others = list(self.active.values())
+            # driver calls in progress on the same frontend (a scenario may use several frontends, each with its own
+            # device and lock; the property speaks about one frontend)
+            others = [o["rec"] for o in self.active.values() if o["clf"] is clf or o["clf"] is None or clf is None]
             rec = {"method": method, "func": site["func"], "site": site["id"], "thread": tname, "locked": owned}
-            self.active[tok] = rec
+            self.active[tok] = {"ident": me, "clf": clf, "lock": lk, "rec": rec}
             self.in_driver += 1
             if self.in_driver > self.max_conc:
                 self.max_conc = self.in_driver
@@ -269,13 +502,115 @@ class Monitor(object):
                            rec, None)
         return tok
 
-    def exit(self, proxy, method, tok):
+    def exit(self, proxy, method, tok, exc=None):
+        me = _get_ident()
         with self.mu:
             self.in_driver -= 1
-            self.active.pop(tok, None)
-            if method == "close" and proxy is not None:
+            a = self.active.pop(tok, None)
+            if a is not None and a["lock"] is not None and a["rec"]["locked"]:
+                self.exit_checks += 1
+                if a["lock"].owner != me:
+                    rec = a["rec"]
+                    self._viol("lock-lost-during-driver-call/%s@%s" % (method, rec["func"]),
+                               "driver method %s() from %s (thread %s) was entered with the frontend lock held, but when "
+                               "it returned the calling thread did not own the lock any more (owner now: %s): the lock "
+                               "did not cover the duration of the driver call" % (
+                                   method, rec["site"], rec["thread"],
+                                   "nobody" if a["lock"].owner is None else "another thread"), rec, None)
+            if method == "close" and proxy is not None and (exc is None or isinstance(exc, IOError)):
                 proxy.closed = True
                 proxy.closed_by = threading.current_thread().name
+
+    # -- lock protocol ------------------------------------------------------------------------
+    def before_acquire(self, lock, me, blocking, timeout):
+        if lock.owner == me and lock.kind != "RLock" and blocking and isinstance(timeout, (int, float)) and timeout < 0:
+            # certain self-deadlock: the thread still holds the (non re-entrant) lock - it was leaked on some path
+            func = _frame_func(_nfc_frame(0))
+            with self.mu:
+                self.lock_leaks.append(func)
+            lock.owner = None
+            lock.depth = 0
+            try:
+                lock.real.release()             # let the other threads go on; this run is inconclusive
+            except RuntimeError:
+                pass
+            raise HarnessStop("thread %s acquires the frontend lock in %s while it still holds it (lock leaked)" % (
+                threading.current_thread().name, func))
+        h = self.harness
+        if h is not None and me == h.main_ident:
+            h.on_acquire(lock, me)
+
+    def before_release(self, lock, me, owner):
+        if owner == me:
+            self.releases_checked += 1      # the normal case; an evidence counter only, no mutex needed
+            return
+        with self.mu:
+            self.releases_checked += 1
+            if owner is None:
+                return
+            self.foreign_releases += 1
+            func = _frame_func(_nfc_frame(0))
+            if lock.first_anomaly is None:
+                lock.first_anomaly = func
+            inside = [a["rec"] for a in self.active.values() if a["ident"] == owner and a["lock"] is lock]
+            if not inside:
+                return
+            self.foreign_releases_owner_in_driver += 1
+            culprit = lock.first_anomaly        # ownership is exact up to the first stray release of this lock
+            rec = {"method": "lock.release", "func": func, "site": "lock.release@" + func,
+                   "thread": threading.current_thread().name, "locked": False}
+            self._viol("lock-released-by-non-owner/%s" % culprit,
+                       "thread %s releases the frontend lock in %s although it does not own it, while the owner (thread "
+                       "%s) is inside the driver method %s() from %s: the owner's driver call is no longer protected "
+                       "(first stray release of this lock: in %s)" % (
+                           rec["thread"], func, inside[0]["thread"], inside[0]["method"], inside[0]["site"], culprit),
+                       rec, inside)
+
+    def release_error(self, lock, me, e):
+        func = _frame_func(_nfc_frame(0))
+        with self.mu:
+            self.release_errors += 1
+            if lock.first_anomaly is None:
+                lock.first_anomaly = func
+            culprit = lock.first_anomaly
+            rec = {"method": "lock.release", "func": func, "site": "lock.release@" + func,
+                   "thread": threading.current_thread().name, "locked": False}
+            kind = "release-unlocked-lock" if "unlocked" in str(e) else "release-unowned-lock"
+            self._viol("lock-protocol/%s@%s" % (kind, culprit),
+                       "thread %s releases the frontend lock in %s but the lock is not held (%s: %s): the thread did not "
+                       "hold the lock it believed to hold (released twice, or taken away by another thread's release; "
+                       "first stray release of this lock: in %s)" % (
+                           rec["thread"], func, type(e).__name__, e, culprit), rec, None)
+
+    # -- public operations (outcome on a closed frontend) ---------------------------------------
+    def op_begin(self, clf, name):
+        rec = {"op": name, "clf": clf, "acq": 0, "drv": 0, "expect": None}
+        self.ops.setdefault(_get_ident(), []).append(rec)
+        return rec
+
+    def op_end(self, rec, exc):
+        st = self.ops.get(_get_ident())
+        if st and st[-1] is rec:
+            st.pop()
+        if rec["expect"] is None or isinstance(exc, HarnessStop):
+            return
+        with self.mu:
+            self.enodev_judged += 1
+            if isinstance(exc, IOError) and exc.errno == errno.ENODEV:
+                return
+            if exc is None:
+                out = "returned"
+            elif isinstance(exc, IOError) or type(exc).__module__.startswith("nfc."):
+                out = "driver-error"            # the operation went on to use a driver and reports what it said
+            else:
+                out = "internal-error"          # e.g. AttributeError on the vanished device reference
+            r = {"method": rec["op"], "func": rec["op"], "site": rec["expect"],
+                 "thread": threading.current_thread().name, "locked": False}
+            self._viol("closed-before-lock/%s/%s" % (rec["op"], out),
+                       "another thread's close() completed before %s() made its first acquisition of the frontend lock "
+                       "(at %s); the documented outcome is IOError(ENODEV), observed: %s - the device test or reference "
+                       "was not taken under the lock" % (
+                           rec["op"], rec["expect"], "normal return" if exc is None else repr(exc)[:120]), r, None)
 
     def _viol(self, sig, what, rec, others):
         self.viol_counts[sig] = self.viol_counts.get(sig, 0) + 1
@@ -291,13 +626,15 @@ class DeviceProxy(object):
     """Everything the frontend does with `self.device` passes through here.  Callable attributes are returned as
     wrappers that report entry/exit to the monitor together with the site that fetched them."""
 
-    def __init__(self, mon, real, fetch_hook=None):
+    def __init__(self, mon, real, fetch_hook=None, clf=None, call_hook=None):
         d = object.__getattribute__(self, "__dict__")
         d["_mon"] = mon
         d["_real"] = real
+        d["_clf"] = clf
         d["closed"] = False
         d["closed_by"] = None
         d["_fetch_hook"] = fetch_hook
+        d["_call_hook"] = call_hook
 
     def __getattr__(self, name):
         real = self._real
@@ -307,13 +644,21 @@ class DeviceProxy(object):
         mon = self._mon
         site = mon.sites.resolve(name, sys._getframe(1))
         proxy = self
+        clf = self._clf
+        call_hook = self._call_hook
 
         def driver_call(*a, **kw):
-            tok = mon.enter(proxy, name, site)
+            tok = mon.enter(proxy, name, site, clf)
+            err = None
             try:
+                if call_hook is not None:
+                    call_hook(proxy, name, site, attr)
                 return attr(*a, **kw)
+            except BaseException as e:
+                err = e
+                raise
             finally:
-                mon.exit(proxy, name, tok)
+                mon.exit(proxy, name, tok, err)
         driver_call.__name__ = name
         hook = self._fetch_hook
         if hook is not None:
@@ -375,6 +720,7 @@ class FakeEnv(object):
         self.connect_result = "ok"    # 'ok'|'none'|'ioerror'
         self.close_raises = False
         self.io = None                # hook(devname, method) installed by the harness
+        self.fault_p = 0.0            # stress mode: probability that a driver call fails (kind drawn from self.rng)
 
     def pick(self, table, key, choices):
         if self.random:
@@ -634,6 +980,7 @@ def _ns():
 
             def __init__(self, mon, path=None):
                 mon.clf = self
+                self.__dict__["_vf_mon"] = mon
                 super(MonitoredFrontend, self).__init__(path)
 
             @property
@@ -642,7 +989,41 @@ def _ns():
 
             @lock.setter
             def lock(self, real):
-                self.__dict__["_vf_lock"] = real if isinstance(real, OwnerLock) else OwnerLock(real)
+                if not isinstance(real, OwnerLock):
+                    real = OwnerLock(real, self.__dict__.get("_vf_mon"), self)
+                    self.__dict__["_vf_mon"].locks.append(real)
+                self.__dict__["_vf_lock"] = real
+
+            # pass-through wrappers: record which public operation a thread is in and how it ended
+            def _vf_op(self, name, fn, a, kw):
+                mon = self.__dict__["_vf_mon"]
+                rec = mon.op_begin(self, name)
+                try:
+                    r = fn(*a, **kw)
+                except BaseException as e:
+                    mon.op_end(rec, e)
+                    raise
+                mon.op_end(rec, None)
+                return r
+
+            def sense(self, *a, **kw):
+                return self._vf_op("sense", super(MonitoredFrontend, self).sense, a, kw)
+
+            def listen(self, *a, **kw):
+                return self._vf_op("listen", super(MonitoredFrontend, self).listen, a, kw)
+
+            def exchange(self, *a, **kw):
+                return self._vf_op("exchange", super(MonitoredFrontend, self).exchange, a, kw)
+
+            @property
+            def max_send_data_size(self):
+                return self._vf_op("max_send_data_size",
+                                   lambda: super(MonitoredFrontend, self).max_send_data_size, (), {})
+
+            @property
+            def max_recv_data_size(self):
+                return self._vf_op("max_recv_data_size",
+                                   lambda: super(MonitoredFrontend, self).max_recv_data_size, (), {})
         return MonitoredFrontend
 
     methods = [n for n, v in vars(nfc.clf.device.Device).items() if callable(v) and not n.startswith("_")]
@@ -664,16 +1045,28 @@ def static_sites():
 # =============================================================================================================
 # prober thread and harness
 # =============================================================================================================
+INSIDE_OPS = ("size", "listen", "open", "exchange", "sense")      # prober operations issued inside driver calls
+FAULT_KINDS = ("IOError", "TimeoutError", "TransmissionError", "BrokenLinkError")
+
+
+def make_fault(nfc, kind):
+    if kind == "IOError":
+        return IOError(errno.EIO, os.strerror(errno.EIO))
+    return getattr(nfc.clf, kind)("fake: injected %s" % kind)
+
+
 class Prober(object):
     """A second application thread that uses the public frontend API at moments chosen by the directed thread.
     The directed thread waits (state handshake, no wall-clock verdict) until the prober either is inside the
-    driver, or waits for the frontend lock, or has finished."""
+    driver, or waits (without time-out) for the frontend lock, or has finished."""
 
     def __init__(self, h):
         self.h = h
         self.q = queue.Queue()
         self.idle = True
         self.outcomes = {}
+        self.ops = {}
+        self.last = None
         self.gates = 0
         self.gate_blocked = 0          # prober had to wait for the lock (what the property promises)
         self.gate_entered = 0          # prober got into the driver / finished while the directed call was active
@@ -682,54 +1075,77 @@ class Prober(object):
         self.thread.start()
         h.mon.prober_ident = self.thread.ident
 
+    def _run(self, op, clf):
+        ns = self.h.ns
+        if op == "size":
+            clf.max_recv_data_size
+        elif op == "close":
+            clf.close()
+        elif op == "reopen":
+            clf.close()
+            clf.open("fake:prober-reopen")
+        elif op == "open":
+            clf.open("fake:prober")
+        elif op == "listen":
+            clf.listen(ns["LT"]("212F", sensf_res=bytearray(b"\x01" + T3T_IDM + T3T_PMM + b"\x12\xfc")), 0.001)
+        elif op == "exchange":
+            clf.exchange(b"\x30\x00", 0.001)
+        elif op == "sense":
+            clf.sense(ns["RT"]("106A"))
+
     def _loop(self):
         while True:
-            op = self.q.get()
-            if op is None:
+            item = self.q.get()
+            if item is None:
                 return
+            op, clf = item
             try:
-                clf = self.h.mon.clf
-                if op == "size":
-                    clf.max_recv_data_size
-                elif op == "close":
-                    clf.close()
+                self._run(op, clf if clf is not None else self.h.mon.clf)
                 out = "ok"
             except IOError as e:
                 out = "IOError(%s)" % errno.errorcode.get(e.errno, e.errno)
+            except HarnessStop:
+                out = "HarnessStop"
             except Exception as e:                      # outcome, not a verdict
                 out = type(e).__name__
             self.outcomes[op + ":" + out] = self.outcomes.get(op + ":" + out, 0) + 1
+            self.ops[op] = self.ops.get(op, 0) + 1
+            self.last = (op, out)
             self.idle = True
 
-    def gate(self, op):
-        """called by the directed thread from inside a driver call (or between attribute fetch and call)"""
+    def gate(self, op, clf=None, complete=False):
+        """called by the directed thread from inside a driver call, between attribute fetch and call, or right
+        before a lock acquisition.  Returns 'completed' | 'blocked' | 'entered' | 'timeout'."""
         mon = self.h.mon
         me = _get_ident()
         self.gates += 1
         issued = False
+        complete = complete or op in ("close", "reopen")
         deadline = _time.monotonic() + 20
         while True:
-            lk = mon.frontend_lock()
-            blocked_by_me = lk is not None and lk.owner == me and lk.waiters > 0
+            lk = mon.lock_of(clf)
+            # only a waiter without time-out is certain to stay blocked until this thread releases the lock; a timed
+            # waiter (lock.acquire(timeout=..)) is waited for until it has got the lock or has given up
+            blocked_by_me = lk is not None and lk.owner == me and lk.waiters_untimed > 0
             if self.idle:
                 if issued:
                     self.gate_entered += 1      # the prober ran to completion while the directed thread stood here
-                    return
+                    return "completed"
                 self.idle = False
                 mon.prober_in_driver = False
                 issued = True
-                self.q.put(op)
+                self.q.put((op, clf))
                 continue
             if blocked_by_me:
                 self.gate_blocked += 1          # the prober (this or a still pending request) waits for the lock the
-                return                          # directed thread holds: what the property promises
-            if issued and mon.prober_in_driver and op != "close":
+                return "blocked"                # directed thread holds: what the property promises
+            if issued and mon.prober_in_driver and not complete:
                 self.gate_entered += 1          # for "close" the directed thread waits until close() has completed
-                return
+                return "entered"
             # otherwise: an earlier request is still on its way through a free lock - let it finish first
             if _time.monotonic() > deadline:
                 self.timeouts += 1
-                return
+                return "timeout"
             _time.sleep(0)
 
     def stop(self):
@@ -741,23 +1157,35 @@ class Prober(object):
 class Harness(object):
     """one frontend under observation: monitor, fake environment, patches of nfc.clf.device.connect and time"""
 
-    def __init__(self, rng, probe=None, close_at=None):
+    def __init__(self, rng, probe=None, close_at=None, fault=None):
         ns = _ns()
         self.ns = ns
         self.nfc = ns["nfc"]
         self.mon = Monitor(static_sites())
+        self.mon.harness = self
         self.env = FakeEnv(rng)
         self.rng = rng
         self.serial = 0
         self.clf = None
-        self.probe = probe                  # None | 'size' | 'close'
-        self.close_at = close_at            # index of the driver attribute fetch at which the close prober runs
+        self.probe = probe                  # None | one of INSIDE_OPS | 'close' | 'pre-close' | 'pre-reopen'
+        self.close_at = close_at            # index of the driver attribute fetch / lock acquisition that is probed
+        self.fault = fault                  # None | {"site": static site id, "nth": n, "kind": one of FAULT_KINDS}
+        self.fault_seen = 0
+        self.fault_fired = False
+        self.fault_clf = None
         self.fetches = 0
+        self.acquires = 0
+        self.acq_labels = []                # lock acquisitions of the directed thread: "function:Lline"
+        self.seq = []                       # static site ids of the directed thread's driver calls, in order
         self.close_fired = False
+        self.fired_at = None
+        self.pre_skipped = False
+        self.pre_result = None
         self.main_ident = _get_ident()
         self.prober = Prober(self) if probe else None
         self.io_rng = random.Random(rng.getrandbits(32))
         self.stress_io = False
+        self.stress_faults = 0
         self.env.io = self._io
         self._saved = None
 
@@ -780,10 +1208,26 @@ class Harness(object):
             ok = self.prober.stop()
         return ok
 
+    def _owner_frontend(self, frame):
+        """the frontend whose method called device.connect (its lock is the one that must be held)"""
+        cls = self.ns["Frontend"]
+        n = 0
+        while frame is not None and n < 6:
+            o = frame.f_locals.get("self")
+            if isinstance(o, cls):
+                return o
+            frame = frame.f_back
+            n += 1
+        return self.mon.clf
+
     def _fake_connect(self, path):
-        site = self.mon.sites.resolve("device.connect", sys._getframe(1))
-        tok = self.mon.enter(None, "device.connect", site)
+        frame = sys._getframe(1)
+        site = self.mon.sites.resolve("device.connect", frame)
+        clf = self._owner_frontend(frame)
+        tok = self.mon.enter(None, "device.connect", site, clf)
+        err = None
         try:
+            self._on_call(None, "device.connect", site, None)
             self._io("fake:new", "device.connect")
             r = self.env.connect_result
             if self.env.random and self.env.rng.random() < 0.05:
@@ -795,11 +1239,14 @@ class Harness(object):
             self.serial += 1
             dev = self.ns["FakeDevice"](self.env, self.serial)
             self._io("fake:new", "device.connect")
-            return DeviceProxy(self.mon, dev, self._on_fetch)
+            return DeviceProxy(self.mon, dev, self._on_fetch, clf, self._on_call)
+        except BaseException as e:
+            err = e
+            raise
         finally:
-            self.mon.exit(None, "device.connect", tok)
+            self.mon.exit(None, "device.connect", tok, err)
 
-    # -- yields / probes inside the fake driver ----------------------------------------------
+    # -- yields / probes / faults inside the fake driver -------------------------------------------
     def _io(self, devname, method):
         if self.stress_io:
             r = self.io_rng.random()
@@ -810,10 +1257,38 @@ class Harness(object):
             else:
                 _time.sleep(0.0003)
             return
-        if self.probe == "size" and _get_ident() == self.main_ident:
-            self.prober.gate("size")
+        if self.probe in INSIDE_OPS and _get_ident() == self.main_ident:
+            self.prober.gate(self.probe, self.mon.clf_in_driver(self.main_ident))
         else:
             _time.sleep(0)
+
+    def _on_call(self, proxy, name, site, attr):
+        """runs inside the monitored driver call, before the fake driver method"""
+        env = self.env
+        if env.random:
+            if env.fault_p and env.rng.random() < env.fault_p:
+                self.stress_faults += 1
+                kind = env.rng.choice(FAULT_KINDS)
+                if name == "close" and attr is not None:
+                    attr()                           # the driver shuts down and then reports the failure
+                raise make_fault(self.nfc, kind)
+            return
+        if _get_ident() != self.main_ident:
+            return
+        if site.get("static"):
+            self.seq.append(site["id"])
+        f = self.fault
+        if f is None or self.fault_fired or site["id"] != f["site"]:
+            return
+        self.fault_seen += 1
+        if self.fault_seen != f["nth"]:
+            return
+        self.fault_fired = True
+        self.fault_clf = self.mon.clf_in_driver(self.main_ident)
+        self._io("fake:fault", name)             # the prober is waiting for the lock when the driver call fails
+        if name == "close" and attr is not None:
+            attr()
+        raise make_fault(self.nfc, f["kind"])
 
     def _on_fetch(self, name, site):
         if _get_ident() != self.main_ident:
@@ -822,7 +1297,33 @@ class Harness(object):
         self.fetches += 1
         if self.probe == "close" and k == self.close_at and not self.close_fired:
             self.close_fired = True
+            self.fired_at = site["id"]
             self.prober.gate("close")
+
+    def on_acquire(self, lock, me):
+        """the directed thread is about to acquire a frontend lock (called before the acquisition proceeds)"""
+        k = self.acquires
+        self.acquires += 1
+        fr = _nfc_frame(0)
+        label = self.mon.sites.lock_site(fr) or "lock@%s:unlisted" % _frame_func(fr)
+        self.acq_labels.append(label)
+        st = self.mon.ops.get(me)
+        rec = st[-1] if st else None
+        first = rec is not None and rec["acq"] == 0
+        if rec is not None:
+            rec["acq"] += 1
+        if self.probe not in ("pre-close", "pre-reopen") or k != self.close_at or self.close_fired:
+            return
+        self.close_fired = True
+        self.fired_at = label
+        if lock.owner == me:
+            self.pre_skipped = True              # re-entrant acquisition: the prober could only block
+            return
+        op = "close" if self.probe == "pre-close" else "reopen"
+        self.pre_result = self.prober.gate(op, lock.clf, complete=True)
+        if (op == "close" and self.pre_result == "completed" and self.prober.last == ("close", "ok") and first
+                and rec["drv"] == 0 and rec["op"] in ENODEV_OPS and rec["clf"] is lock.clf):
+            rec["expect"] = label
 
     # -- frontends -----------------------------------------------------------------------------
     def frontend(self, path=None):
@@ -852,13 +1353,25 @@ class Harness(object):
                 if s.endswith(":unlisted"):
                     R.count("dynamic_unlisted_site")
             R.max("concurrency_in_driver", mon.max_conc)
+            R.count("exit_owner_checks", mon.exit_checks)
+            R.count("lock_releases_checked", mon.releases_checked)
+            if mon.foreign_releases:
+                R.count("lock_foreign_releases", mon.foreign_releases)
+                R.count("lock_foreign_releases_owner_in_driver", mon.foreign_releases_owner_in_driver)
+            if mon.release_errors:
+                R.count("lock_release_errors", mon.release_errors)
+            R.count("pre_acquire_enodev_outcomes_judged", mon.enodev_judged)
+            leaks = list(mon.lock_leaks)
             viol = list(mon.violations)
             counts = dict(mon.viol_counts)
-        lk = mon.frontend_lock()
-        if lk is not None:
+        for lk in mon.locks:
             R.count("lock_acquisitions", lk.acquisitions)
             R.count("lock_contended_acquisitions", lk.contended)
             R.seen("lock_kind", lk.kind)
+        if leaks:
+            R.count("lock_leaks", len(leaks))
+            R.inconc("frontend lock leaked (a thread re-acquired the lock it still held) in %s: %r" % (
+                sorted(set(leaks)), case))
         if self.prober:
             p = self.prober
             R.count("probe_gates", p.gates)
@@ -866,6 +1379,8 @@ class Harness(object):
             R.count("probe_prober_not_blocked", p.gate_entered)
             for k, n in p.outcomes.items():
                 R.count("prober_outcome/" + k, n)
+            for k, n in p.ops.items():
+                R.count("prober_op/" + k, n)
             if p.timeouts:
                 R.inconc("watchdog: prober handshake timed out %d times in %r" % (p.timeouts, case))
         if mon.untracked:
@@ -1228,25 +1743,74 @@ SCENARIOS = {"open_close": sc_open_close, "sense": sc_sense, "listen": sc_listen
              "card": sc_card, "combo": sc_combo}
 
 
-def run_scenario(R, name, params, probe, close_at=None, seed=0, record_case=True):
-    """one directed case; returns (number of driver attribute fetches by the directed thread, violation counts)"""
+def aftermath(h):
+    """after an injected driver fault the same frontend is used further by the directed thread (the prober is
+    active inside every driver call): error handlers must have left lock and device reference consistent"""
+    clf = h.fault_clf if h.fault_clf is not None else h.mon.clf
+    RT, LT = h.ns["RT"], h.ns["LT"]
+    env = h.env
+    env.present = {"tta": "t2t", "ttf": "t3t"}
+    env.listen = {"ttf": "activate"}
+    env.presence_left = None
+    env.connect_result = "ok"
+    env.close_raises = False
+    env.reader_cmds = [b"\x0a\x04" + T3T_IDM]
+    sensf = bytearray(b"\x01" + T3T_IDM + T3T_PMM + b"\x12\xfc")
+    before = h.mon.calls
+    for f in (lambda: clf.max_recv_data_size,
+              lambda: clf.sense(RT("106A")),
+              lambda: clf.exchange(b"\x30\x00", 0.01),
+              lambda: clf.max_send_data_size,
+              lambda: clf.listen(LT("212F", sensf_res=sensf), 0.01),
+              lambda: clf.exchange(b"\x12\x01" + T3T_IDM + T3T_PMM, 0.01),
+              lambda: clf.close(),
+              lambda: clf.sense(RT("106A")),
+              lambda: clf.open("fake:after-fault"),
+              lambda: clf.sense(RT("212F")),
+              lambda: clf.connect(rdwr={"targets": ["106A"], "iterations": 1, "interval": 0.0,
+                                        "on-connect": lambda tag: False}, terminate=_after(2)),
+              lambda: clf.max_recv_data_size,
+              lambda: clf.close()):
+        _try(Exception, f)
+    return h.mon.calls - before
+
+
+def run_scenario(R, name, params, probe, close_at=None, seed=0, fault=None, record_case=True):
+    """one directed case; returns (number of driver attribute fetches by the directed thread, violation counts,
+    harness)"""
     rng = random.Random(seed)
     case = {"kind": "directed", "scenario": name, "params": params, "probe": probe, "close_at": close_at, "seed": seed}
-    h = Harness(rng, probe=probe, close_at=close_at)
+    if fault is not None:
+        case["fault"] = fault
+    h = Harness(rng, probe=probe, close_at=close_at, fault=fault)
     h.install()
     err = None
+    after_calls = 0
     try:
-        SCENARIOS[name](h, params)
-    except BaseException as e:           # noqa - SystemExit from nfcpy included
-        err = e
+        try:
+            SCENARIOS[name](h, params)
+        except BaseException as e:           # noqa - SystemExit from nfcpy included
+            err = e
+        if fault is not None and h.fault_fired and not isinstance(err, HarnessStop):
+            try:
+                after_calls = aftermath(h)
+            except BaseException as e:       # noqa
+                err = e
     finally:
         ok = h.uninstall()
     if not ok:
         R.inconc("watchdog: prober thread did not finish in %r" % (case,))
     counts = h.report(R, case)
+    pre = probe in ("pre-close", "pre-reopen")
     if err is not None:
-        if probe == "close" and h.close_fired:
-            R.count("after_close_probe_exception/" + type(err).__name__)
+        tolerated = ((probe == "close" or pre) and h.close_fired) or (probe in INSIDE_OPS and probe != "size") \
+            or (fault is not None and h.fault_fired)
+        if isinstance(err, HarnessStop):
+            R.count("directed_scenario_stopped_by_harness")
+            R.inconc("directed scenario %s %r stopped by the harness: %s" % (name, params, err))
+        elif tolerated:
+            tag = "fault" if fault is not None else probe
+            R.count("after_%s_probe_exception/%s" % (tag, type(err).__name__))
         else:
             from vf.core.rec import exc_sig
             R.count("directed_scenario_exception/" + type(err).__name__)
@@ -1255,8 +1819,25 @@ def run_scenario(R, name, params, probe, close_at=None, seed=0, record_case=True
         R.count("close_probe_runs")
         if h.close_fired:
             R.count("close_probe_fired")
+            R.count("close_probe_fired@" + str(h.fired_at).split("@")[-1].split(":")[0])
+    elif pre:
+        tag = "pre_acquire_close" if probe == "pre-close" else "pre_acquire_reopen"
+        R.count(tag + "_runs")
+        if h.close_fired and not h.pre_skipped:
+            R.count(tag + "_fired")
+            R.count(tag + "_fired@" + str(h.fired_at).split("@")[-1].split(":")[0])
+            R.count("pre_acquire_result/" + str(h.pre_result))
+        elif h.pre_skipped:
+            R.count("pre_acquire_skipped_lock_already_held")
+    if fault is not None:
+        R.count("fault_runs")
+        if h.fault_fired:
+            R.count("fault_runs_fired")
+            R.count("fault_kind/" + fault["kind"])
+            R.count("fault_at/" + fault["site"].split("@")[0])
+            R.count("fault_aftermath_driver_calls", after_calls)
     if record_case:
-        R.case(("directed", name, params, probe, close_at), nontrivial=h.mon.calls > 0)
+        R.case(("directed", name, params, probe, close_at, fault), nontrivial=h.mon.calls > 0)
     return h.fetches, counts, h
 
 
@@ -1341,6 +1922,7 @@ def stress_round(R, cfg, record=True):
     inj = Injector.get()
     clf = h.opened()
     h.env.random = True
+    h.env.fault_p = cfg.get("p_fault", 0.0)
     from vf.core.rec import exc_sig
     outcomes = {}
     escapes = set()
@@ -1416,10 +1998,15 @@ def stress_round(R, cfg, record=True):
                     out = "SystemExit"
                 except nfc.clf.Error as e:
                     out = type(e).__name__
+                except HarnessStop:
+                    out = "HarnessStop"
                 except Exception as e:          # an outcome of the race, not a verdict of this property
                     out = type(e).__name__
-                    with omu:
-                        escapes.add(exc_sig(e))
+                    if isinstance(e, RuntimeError) and "lock" in str(e) and h.mon.release_errors:
+                        out = "RuntimeError(lock)"      # judged by the monitor (lock-protocol/...), not filed here
+                    else:
+                        with omu:
+                            escapes.add(exc_sig(e))
                 with omu:
                     k = op + ":" + out
                     outcomes[k] = outcomes.get(k, 0) + 1
@@ -1457,6 +2044,7 @@ def stress_round(R, cfg, record=True):
     R.count("thread_switches", inj.switches)
     R.count("line_events", inj.events)
     R.count("yields_injected", inj.yields)
+    R.count("stress_faults_injected", h.stress_faults)
     for k, n in outcomes.items():
         R.count("stress_outcome/" + k, n)
     for e in escapes:
@@ -1471,41 +2059,132 @@ def stress_round(R, cfg, record=True):
 # =============================================================================================================
 # shard driver
 # =============================================================================================================
-def check_site_coverage(R, observed_sites):
+def check_site_coverage(R, observed_locked, observed_any, lock_reached):
     sites = static_sites()
     ids = [s["id"] for s in sites.items]
     R.max("sites_total", len(ids))
+    R.max("files_scanned", sites.scanned)
     for i in ids:
         R.seen("sites_static", i)
-    missing = [i for i in ids if i not in observed_sites]
+    missing = [i for i in ids if i not in observed_locked]
     R.max("sites_covered", len(ids) - len(missing))
     if not ids:
         R.inconc("no self.device call sites found in %s (adapter broken?)" % sites.path)
-    if missing:
-        R.inconc("driver call sites never executed by the directed drive: %s" % ", ".join(missing))
+    if sites.unparsed:
+        R.inconc("static scan could not read/parse: %s" % ", ".join(sites.unparsed[:5]))
+    never = [i for i in missing if i not in observed_any]
+    unlocked = [i for i in missing if i in observed_any]
+    if never:
+        R.inconc("driver call sites never executed by the directed drive: %s" % ", ".join(never))
+    if unlocked:
+        R.inconc("driver call sites never observed with the frontend lock held: %s" % ", ".join(unlocked))
+    lids = [s["id"] for s in sites.lock_sites]
+    R.max("lock_sites_total", len(lids))
+    lmiss = [i for i in lids if i not in lock_reached]
+    R.max("lock_sites_reached", len(lids) - len(lmiss))
+    for i in sorted(lock_reached):
+        R.seen("lock_sites_acquired", i)
+    if lmiss:
+        R.inconc("lock acquisition sites of the frontend never reached by the directed drive (not probed): %s"
+                 % ", ".join(lmiss))
     return missing
 
 
-def directed_pass(R, rng, shard, nshards, full_close_pass=True):
-    observed = set()
-    scen = scenario_list(rng)
-    fetch_counts = []
+def fault_candidates(seq, srng, tier, q0):
+    """(site, nth, kind) for one scenario from the static sites of its driver calls (in order of first use)"""
+    order, count = [], {}
+    for sid in seq:
+        if sid not in count:
+            order.append(sid)
+            count[sid] = 0
+        count[sid] += 1
+    out = []
+    q = q0
+    for sid in order:
+        c = count[sid]
+        if tier == "quick":
+            out.append({"site": sid, "nth": 1, "kind": FAULT_KINDS[q % 4]})
+            q += 1
+            if c > 1:
+                out.append({"site": sid, "nth": srng.randrange(2, c + 1), "kind": FAULT_KINDS[q % 4]})
+                q += 1
+        else:
+            nths = list(range(1, min(c, 6) + 1))
+            if c > 6:
+                nths += sorted(srng.sample(range(7, c + 1), min(3, c - 6)))
+            for n in nths:
+                for kind in FAULT_KINDS:
+                    out.append({"site": sid, "nth": n, "kind": kind})
+    return out, q
+
+
+ALL_PASSES = ("ops", "fetch-close", "pre-acquire", "faults")
+
+
+def directed_pass(R, seed, shard, nshards, tier="quick", passes=ALL_PASSES):
+    """every shard runs the plain pass (directed thread alone) over all scenarios: coverage criterion (every static
+    site observed with the lock held) and probe positions; all prober passes are partitioned over the shards:
+    scenario list and positions come from shard-independent generators, so every (scenario, probe, position) is run
+    by exactly one shard"""
+    scen = scenario_list(random.Random(seed * 7919 + 5))
+    srng = random.Random(seed * 104729 + 11)
+    locked, anyobs, lock_reached = set(), set(), set()
+    info = []
     for idx, (name, fn, params) in enumerate(scen):
-        n, counts, h = run_scenario(R, name, params, "size", seed=idx)
-        observed |= h.mon.sites_seen
-        fetch_counts.append(n)
+        n, counts, h = run_scenario(R, name, params, None, seed=idx)
+        locked |= h.mon.sites_locked
+        anyobs |= h.mon.sites_seen
+        lock_reached |= set(h.acq_labels)
+        info.append({"fetches": n, "acq": len(h.acq_labels), "seq": list(h.seq)})
         if idx < 40 and shard == 0 and name in ("rdwr", "card"):
             R.sample({"scenario": name, "params": params, "first_driver_calls": h.mon.trace})
-    check_site_coverage(R, observed)
-    # close() prober between attribute fetch and call, at every fetch position (split over the shards)
-    j = 0
-    for idx, (name, fn, params) in enumerate(scen):
-        for k in range(fetch_counts[idx]):
-            j += 1
-            if full_close_pass and j % nshards != shard % nshards:
-                continue
-            run_scenario(R, name, params, "close", close_at=k, seed=idx)
+    check_site_coverage(R, locked, anyobs, lock_reached)
     R.count("directed_scenarios", len(scen))
+    state = {"j": 0}
+    tally = {}
+
+    def mine():
+        state["j"] += 1             # a function of the position number only: exact partition over the shards
+        return zlib.crc32(b"%d" % state["j"]) % nshards == shard % nshards
+
+    def fired(passname, ok):
+        t = tally.setdefault(passname, [0, 0])
+        t[0] += 1
+        if not ok:
+            t[1] += 1
+
+    # prober operation (size query, listen, open, exchange, sense) inside every driver call
+    for idx, (name, fn, params) in enumerate(scen):
+        for op in INSIDE_OPS:
+            if mine() and "ops" in passes:
+                run_scenario(R, name, params, op, seed=idx)
+    # close() prober between attribute fetch and call, at every fetch position
+    for idx, (name, fn, params) in enumerate(scen):
+        for k in range(info[idx]["fetches"]):
+            if mine() and "fetch-close" in passes:
+                n, counts, h = run_scenario(R, name, params, "close", close_at=k, seed=idx)
+                fired("fetch-close", h.close_fired)
+    # close() / close()+open() completed right before the k-th lock acquisition
+    for idx, (name, fn, params) in enumerate(scen):
+        for k in range(info[idx]["acq"]):
+            for probe in ("pre-close", "pre-reopen"):
+                if mine() and "pre-acquire" in passes:
+                    n, counts, h = run_scenario(R, name, params, probe, close_at=k, seed=idx)
+                    fired(probe, h.close_fired)
+    # driver faults
+    q = 0
+    for idx, (name, fn, params) in enumerate(scen):
+        cands, q = fault_candidates(info[idx]["seq"], srng, tier, q)
+        for f in cands:
+            if mine() and "faults" in passes:
+                n, counts, h = run_scenario(R, name, params, "size", seed=idx, fault=f)
+                fired("faults", h.fault_fired)
+    for passname, (n, miss) in sorted(tally.items()):
+        if miss:
+            R.count("probe_position_not_reached/" + passname, miss)
+        if miss > max(2, n // 20):
+            R.inconc("%s pass: %d of %d probe positions of this shard were never reached (directed drive not "
+                     "reproducible, or monitor dead)" % (passname, miss, n))
 
 
 def run(desc, R, rng):
@@ -1513,12 +2192,15 @@ def run(desc, R, rng):
     faulthandler.dump_traceback_later(desc.get("timeout", 240) - 10, exit=False)
     try:
         shard, nshards = desc["shard"], desc.get("nshards", 8)
-        directed_pass(R, rng, shard, nshards)
+        tier = desc.get("tier", "quick")
+        for rep in range(1 if tier == "quick" else 3):     # thorough: three draws of the scenario parameters
+            directed_pass(R, int(desc.get("seed", 0)) + 7000 * rep, shard, nshards, tier)
         lo, hi = desc["threads"]
         clo, chi = desc["calls"]
         for r in range(desc["rounds"]):
             cfg = {"seed": rng.getrandbits(40), "threads": rng.randrange(lo, hi + 1), "calls": rng.randrange(clo, chi + 1),
-                   "p_yield": rng.choice([0.0, 0.01, 0.03, 0.1, 0.3]), "switch_us": rng.choice([5, 20, 100, 1000, 5000])}
+                   "p_yield": rng.choice([0.0, 0.01, 0.03, 0.1, 0.3]), "switch_us": rng.choice([5, 20, 100, 1000, 5000]),
+                   "p_fault": rng.choice([0.0, 0.01, 0.03])}
             ok, counts = stress_round(R, cfg)
             if not ok:
                 break
@@ -1532,11 +2214,11 @@ def replay(case, R):
     try:
         if case.get("kind") == "directed":
             run_scenario(R, case["scenario"], case["params"], case.get("probe"), close_at=case.get("close_at"),
-                         seed=case.get("seed", 0))
+                         seed=case.get("seed", 0), fault=case.get("fault"))
         else:
             # a schedule cannot be forced; the unlocked call behind an overlap is reproduced deterministically by the
             # directed drive with its probers, then the recorded round is repeated a few times (best effort)
-            directed_pass(R, random.Random(0), 0, 1)
+            directed_pass(R, 0, 0, 1, "quick", passes=("ops", "fetch-close", "pre-acquire"))
             cfg = dict(case["cfg"])
             for i in range(3):
                 stress_round(R, cfg)
